@@ -15,7 +15,7 @@ import (
 func ZZC10Structure() {
 	D := zzParam("D", 2)
 	L0, L1, L2 := zzParam("L0", 2), zzParam("L1", 2), zzParam("L2", 1)
-	cfg := &zzGenCfg{maxDepth: D, lens: []int{L0, L1, L2, 1}}
+	cfg := &zzGenCfg{maxDepth: D, lens: []int{L0, L1, L2, 1}, declFirst: zzParam("DECLFIRST", 0) == 1}
 	gp := zzGenProg(cfg)
 	src := gp.render(zzLayout{})
 	p := &zzPlat{}
